@@ -32,16 +32,20 @@ Proof. exact restores_current. Qed.
 
 (* the same, spelled out for one call of main *)
 Theorem C19_restores_each_run :
-  forall s o p, usable (gp s) = true -> restored s (snd (main current o p s)) = true.
+  forall s o p, usable (gp s) = true -> setup_uses o = [] -> restored s (snd (main current o p s)) = true.
 Proof. exact restores_current_run. Qed.
 
 (* "... sequences of several in-process runs followed by ordinary use of the profile decorator":
    interleave kernprof.main runs (ARun) with enable() / disable() / decorations of
-   line_profiler.profile in any way - what can be observed at the end (argv, path, the whole
-   decorator object, trace slot, threads) is what the ordinary uses ALONE would have produced.
-   In particular a user's explicit enable()/disable() survives every later run. *)
+   line_profiler.profile (AUse) in any way - argv, path, trace slot and threads end as they
+   started, and the whole decorator object ends exactly as the ordinary uses ALONE would have
+   left it ([user_gp]: the host's uses, and the uses made by the runs' -s setup files, which
+   run before kernprof takes the decorator over).  In particular a user's explicit
+   enable()/disable() survives every later run, whether it returns or raises.
+   (C19_restores itself is about runs whose setup files leave the decorator alone:
+   [setup_silent] in C19_statement.) *)
 Theorem C19_runs_invisible :
-  forall acts s, veq (exec_acts current s acts) (exec_acts current s (filter is_user acts)).
+  forall acts s, veq (exec_acts current s acts) (set_gp (user_gp acts (cur (argv s)) (gp s)) s).
 Proof. exact runs_invisible_current. Qed.
 
 (* any main with these five behaviours satisfies C19 *)
@@ -131,10 +135,10 @@ Proof. exact decorate_raises_iff. Qed.
 Theorem C19_nonvacuous :
   usable (gp st0) = true
   /\ restored st0 (exec_runs current st0 [(opts0, returns); (opts0, raises); (opts_timed, returns);
-                                           (opts_module, mkProg Exc true true true 0 [Fire; Fire; DumpDone])]) = true
+                                           (opts_module, mkProg Exc true true true true true 0 [Fire; Fire; DumpDone])]) = true
   /\ restored st0 (exec_runs unrepaired st0 [(opts0, returns)]) = false
   /\ fst (main current opts0 raises st0) = Raised
-  /\ cur (path (snd (main_body current opts_module (mkProg Return true false true 0 []) st0)))
-     = ["/T/setupd"; "/T"; "/lib"; "/prog-added"]
-  /\ cur (argv (snd (main_body current opts_module (mkProg Return false true true 0 []) st0))) = ["mod"; "x"; "prog-added"].
+  /\ cur (path (snd (main_body current opts_module (mkProg Return true false true false true 0 []) st0)))
+     = ["/T/setupd"; "/T"; "/lib"; "/prog-added"; "/prog-rebound"]
+  /\ cur (argv (snd (main_body current opts_module (mkProg Return false true false true true 0 []) st0))) = ["mod"; "x"; "prog-added"; "prog-rebound"].
 Proof. exact nonvacuous. Qed.
